@@ -753,6 +753,595 @@ func c34RunStorm(rt *rapid.T, r *ev.Rec, p c34Storm) {
 	}
 }
 
+// ---- phase 3: crowd
+//
+// More timers expire in one pass of the timer loop than the pass can run at the same time, and the callbacks do not
+// return until the harness lets them: the loop is then stuck handing out the remaining, already collected timers,
+// and every Stop* call made in that window hits timers that are collected but whose callback has not started.
+//
+// All timers are registered before the loop is started and the loop is started only after the monotonic clock has
+// passed every first expiry, so the first pass collects all of them. Every callback blocks on a harness gate. The
+// harness waits (by count, not by time) until exactly c34CrowdSlots callbacks are inside the gate: with that many
+// slots per pass every slot is then held by a goroutine that is inside a harness callback, so no other timer of the
+// pass can be anywhere between "looked at its stop flag" and "entered its callback". That is the one situation in
+// which the one-start tolerance of clause (a) is not needed: a callback start numbered after the return of a Stop*
+// call covering the timer is a violation. If the number of running callbacks ever exceeds c34CrowdSlots before the
+// gate opens, the assumption about the slots is wrong and the case is not judged by this clause.
+
+const c34CrowdSlots = 333 // callbacks of one loop pass that run at the same time (maxTimerSemsize in util/timers.go)
+
+type c34CrowdProfile struct {
+	IntervalMS int
+	Plain      bool // SimpleTimers.New instead of NewTimer
+	Ret        int  // what every callback of the timer returns
+}
+
+type c34CrowdOp struct {
+	Op    string // stop | stopothers | stopall
+	Picks []int  // stop: picks among the timers whose callback has not started; stopothers: picks among all timers (the exclude list)
+	Also  []int  // stop: picks among all timers, stopped by id in the same call (running callbacks included)
+}
+
+type c34Crowd struct {
+	Size         uint64
+	Resolution   int // ms
+	N            int
+	Profiles     []c34CrowdProfile // timer i uses Profiles[i % len]
+	Ops          []c34CrowdOp
+	Successors   []int // picks among the ids stopped in the window: registered again before the gate opens
+	SuccessorMS  int
+	SuccessorRet int
+}
+
+func c34GenCrowd(t *rapid.T) c34Crowd {
+	p := c34Crowd{
+		Size:         rapid.SampledFrom([]uint64{1, 2, 3, 16}).Draw(t, "size"),
+		Resolution:   rapid.IntRange(1, 5).Draw(t, "resolution"),
+		N:            rapid.IntRange(c34CrowdSlots+1, 500).Draw(t, "timers"),
+		SuccessorMS:  rapid.IntRange(1, 5).Draw(t, "successorInterval"),
+		SuccessorRet: rapid.SampledFrom([]int{c34RetKeep, c34RetKeep, c34RetDrop, c34RetErr}).Draw(t, "successorRet"),
+	}
+
+	np := rapid.IntRange(1, 5).Draw(t, "profiles")
+	for i := 0; i < np; i++ {
+		p.Profiles = append(p.Profiles, c34CrowdProfile{
+			IntervalMS: rapid.SampledFrom([]int{1, 1, 2, 3, 5, 10}).Draw(t, "interval"),
+			Plain:      rapid.Bool().Draw(t, "plain"),
+			Ret:        rapid.SampledFrom([]int{c34RetKeep, c34RetKeep, c34RetDrop, c34RetErr}).Draw(t, "ret"),
+		})
+	}
+
+	no := rapid.IntRange(1, 4).Draw(t, "ops")
+	for i := 0; i < no; i++ {
+		op := c34CrowdOp{}
+
+		switch o := rapid.IntRange(0, 9).Draw(t, "op"); {
+		case o < 6:
+			op.Op = "stop"
+			op.Picks = rapid.SliceOfN(rapid.IntRange(0, 9999), 1, 60).Draw(t, "picks")
+			op.Also = rapid.SliceOfN(rapid.IntRange(0, 9999), 0, 3).Draw(t, "also")
+		case o < 9:
+			op.Op = "stopothers"
+			op.Picks = rapid.SliceOfN(rapid.IntRange(0, 9999), 0, 12).Draw(t, "exclude")
+		default:
+			op.Op = "stopall"
+		}
+
+		p.Ops = append(p.Ops, op)
+	}
+
+	p.Successors = rapid.SliceOfN(rapid.IntRange(0, 9999), 0, 6).Draw(t, "successors")
+
+	return p
+}
+
+func (p c34Crowd) String() string {
+	var b strings.Builder
+
+	fmt.Fprintf(&b, "c34-crowd shards=%d resolution=%dms timers=%d profiles=[", p.Size, p.Resolution, p.N)
+
+	for i, pr := range p.Profiles {
+		if i > 0 {
+			b.WriteString(" ")
+		}
+
+		how := "NewTimer"
+		if pr.Plain {
+			how = "New"
+		}
+
+		fmt.Fprintf(&b, "%s every %dms -> %s;", how, pr.IntervalMS, c34RetNames[pr.Ret])
+	}
+
+	b.WriteString("] while the worker slots are full:")
+
+	for _, op := range p.Ops {
+		switch op.Op {
+		case "stop":
+			fmt.Fprintf(&b, " stop(waiting%v any%v);", op.Picks, op.Also)
+		case "stopothers":
+			fmt.Fprintf(&b, " stopothers(exclude any%v);", op.Picks)
+		default:
+			b.WriteString(" stopall;")
+		}
+	}
+
+	fmt.Fprintf(&b, " register again stopped%v every %dms -> %s; open the gate", p.Successors, p.SuccessorMS, c34RetNames[p.SuccessorRet])
+
+	return b.String()
+}
+
+type c34CrowdTimer struct {
+	idx       int
+	id        util.TimerID
+	interval  time.Duration
+	ret       int
+	gated     bool
+	successor bool
+	regStart  time.Time
+	regEndSeq int64
+	cbs       []c34CBEvent
+	removed   []int64
+}
+
+type c34CrowdStop struct {
+	what             string
+	startSeq, endSeq int64
+	covered          []*c34CrowdTimer
+}
+
+type c34CrowdRun struct {
+	ts       *util.SimpleTimers
+	mu       sync.Mutex
+	seq      atomic.Int64
+	gate     chan struct{}
+	opened   bool
+	closed   bool
+	inGate   int // callbacks of gated timers that started before the gate was opened
+	ticks    int // callback starts of the sentinel
+	inflight atomic.Int64
+}
+
+func (x *c34CrowdRun) register(rt *rapid.T, tm *c34CrowdTimer, plain bool) {
+	intervalf := func(uint64) time.Duration { return tm.interval }
+	cb := func(context.Context, uint64) (bool, error) { return x.callback(tm) }
+
+	var added bool
+	var err error
+
+	tm.regStart = time.Now()
+
+	if plain {
+		added, err = x.ts.New(tm.id, intervalf, cb)
+	} else {
+		added, err = x.ts.NewTimer(util.NewSimpleTimer(tm.id, intervalf, cb, func() {
+			s := x.seq.Add(1)
+
+			x.mu.Lock()
+			tm.removed = append(tm.removed, s)
+			x.mu.Unlock()
+		}))
+	}
+
+	if err != nil || !added {
+		rt.Fatalf("c34: crowd: timer %s not registered: added=%v err=%v", tm.id, added, err)
+	}
+
+	x.mu.Lock()
+	tm.regEndSeq = x.seq.Add(1)
+	x.mu.Unlock()
+}
+
+func (x *c34CrowdRun) callback(tm *c34CrowdTimer) (bool, error) {
+	now := time.Now()
+
+	x.mu.Lock()
+	if x.closed {
+		x.mu.Unlock()
+
+		return true, nil
+	}
+
+	k := len(tm.cbs)
+	tm.cbs = append(tm.cbs, c34CBEvent{startSeq: x.seq.Add(1), start: now})
+
+	switch {
+	case tm.gated && !x.opened:
+		x.inGate++
+	case tm.idx < 0:
+		x.ticks++
+	}
+
+	x.inflight.Add(1)
+	x.mu.Unlock()
+
+	defer x.inflight.Add(-1)
+
+	if tm.gated {
+		<-x.gate
+	}
+
+	x.mu.Lock()
+	if !x.closed {
+		tm.cbs[k].ret = tm.ret
+		tm.cbs[k].endSeq = x.seq.Add(1)
+		tm.cbs[k].end = time.Now()
+	}
+	x.mu.Unlock()
+
+	switch tm.ret {
+	case c34RetDrop:
+		return false, nil
+	case c34RetErr:
+		return true, errors.New("c34: injected callback error")
+	default:
+		return true, nil
+	}
+}
+
+func (x *c34CrowdRun) stop(what string, ids []util.TimerID, covered []*c34CrowdTimer) *c34CrowdStop {
+	s := &c34CrowdStop{what: what, covered: covered}
+
+	s.startSeq = x.seq.Add(1)
+
+	switch what {
+	case "stop":
+		_ = x.ts.StopTimers(ids)
+	case "stopothers":
+		_ = x.ts.StopOthers(ids)
+	case "stopall":
+		_ = x.ts.StopAllTimers()
+	}
+
+	s.endSeq = x.seq.Add(1)
+
+	return s
+}
+
+func c34RunCrowd(rt *rapid.T, r *ev.Rec, p c34Crowd) {
+	ts, err := util.NewSimpleTimers(p.Size, time.Duration(p.Resolution)*time.Millisecond)
+	if err != nil {
+		rt.Fatalf("NewSimpleTimers: %v", err)
+	}
+
+	x := &c34CrowdRun{ts: ts, gate: make(chan struct{})}
+	desc := p.String()
+
+	var openSeq int64
+
+	open := func() {
+		x.mu.Lock()
+		if !x.opened {
+			x.opened = true
+			openSeq = x.seq.Add(1)
+
+			close(x.gate)
+		}
+		x.mu.Unlock()
+	}
+
+	started := false
+
+	defer func() { // also on the way out of a failed case: no callback stays behind the gate, no loop keeps running
+		open()
+
+		if started {
+			_ = ts.Stop()
+		}
+
+		x.mu.Lock()
+		x.closed = true
+		x.mu.Unlock()
+	}()
+
+	// ---- every timer is registered, and expired, before the loop starts: the first pass collects all of them
+	timers := make([]*c34CrowdTimer, p.N)
+
+	var longest time.Duration
+
+	for i := range timers {
+		pr := p.Profiles[i%len(p.Profiles)]
+		tm := &c34CrowdTimer{idx: i, id: util.TimerID(fmt.Sprintf("c%03d", i)), interval: time.Duration(pr.IntervalMS) * time.Millisecond, ret: pr.Ret, gated: true}
+		timers[i] = tm
+
+		x.register(rt, tm, pr.Plain)
+
+		longest = max(longest, tm.interval)
+	}
+
+	for registered := time.Now(); time.Since(registered) <= longest+time.Millisecond; {
+		time.Sleep(longest + time.Millisecond)
+	}
+
+	if err := ts.Start(context.Background()); err != nil {
+		rt.Fatalf("start: %v", err)
+	}
+
+	started = true
+
+	// ---- wait until the worker slots of the pass are full (bounded; a budget hit is inconclusive)
+	running := func() int {
+		x.mu.Lock()
+		defer x.mu.Unlock()
+
+		return x.inGate
+	}
+
+	for deadline := time.Now().Add(30 * time.Second); running() < c34CrowdSlots; {
+		if time.Now().After(deadline) {
+			rt.Fatalf("c34: crowd: only %d callbacks running 30 s after the loop was started: %s", running(), desc)
+		}
+
+		time.Sleep(200 * time.Microsecond)
+	}
+
+	// ---- the window: nothing more can start before the gate opens
+	var waiting []*c34CrowdTimer // callback not started
+
+	x.mu.Lock()
+	for _, tm := range timers {
+		if len(tm.cbs) == 0 {
+			waiting = append(waiting, tm)
+		}
+	}
+	x.mu.Unlock()
+
+	var stops []*c34CrowdStop
+
+	stoppedAny := map[int]bool{}
+
+	for _, op := range p.Ops {
+		var ids []util.TimerID
+		var covered []*c34CrowdTimer
+
+		switch op.Op {
+		case "stop":
+			seen := map[int]bool{}
+
+			for _, pick := range op.Picks {
+				if len(waiting) == 0 {
+					break
+				}
+
+				if tm := waiting[pick%len(waiting)]; !seen[tm.idx] {
+					seen[tm.idx] = true
+					covered = append(covered, tm)
+				}
+			}
+
+			for _, pick := range op.Also {
+				if tm := timers[pick%len(timers)]; !seen[tm.idx] {
+					seen[tm.idx] = true
+					covered = append(covered, tm)
+				}
+			}
+
+			for _, tm := range covered {
+				ids = append(ids, tm.id)
+			}
+		case "stopothers":
+			exclude := map[int]bool{}
+
+			for _, pick := range op.Picks {
+				if tm := timers[pick%len(timers)]; !exclude[tm.idx] {
+					exclude[tm.idx] = true
+					ids = append(ids, tm.id)
+				}
+			}
+
+			for _, tm := range timers {
+				if !exclude[tm.idx] {
+					covered = append(covered, tm)
+				}
+			}
+		default:
+			covered = timers
+		}
+
+		for _, tm := range covered {
+			stoppedAny[tm.idx] = true
+		}
+
+		stops = append(stops, x.stop(op.Op, ids, covered))
+	}
+
+	// ---- ids stopped in the window are registered again: the old timer objects are still waiting for a slot
+	var stopped []*c34CrowdTimer
+
+	for _, tm := range timers {
+		if stoppedAny[tm.idx] {
+			stopped = append(stopped, tm)
+		}
+	}
+
+	var successors []*c34CrowdTimer
+
+	again := map[int]bool{}
+
+	for _, pick := range p.Successors {
+		if len(stopped) == 0 {
+			break
+		}
+
+		old := stopped[pick%len(stopped)]
+		if again[old.idx] {
+			continue
+		}
+
+		again[old.idx] = true
+
+		tm := &c34CrowdTimer{idx: p.N + len(successors), id: old.id, interval: time.Duration(p.SuccessorMS) * time.Millisecond, ret: p.SuccessorRet, successor: true}
+		successors = append(successors, tm)
+
+		x.register(rt, tm, false)
+	}
+
+	full := running() == c34CrowdSlots // the count only grows while the gate is closed: it was 333 during every call above
+
+	open()
+
+	// ---- a sentinel registered now can only be collected by a later pass, that is after the loop got rid of every
+	// timer of the first pass; its second tick is the (count-based) sign that the stopped timers had their chance
+	sentinel := &c34CrowdTimer{idx: -1, id: "c-tick", interval: time.Millisecond, ret: c34RetKeep}
+	x.register(rt, sentinel, true)
+
+	for deadline := time.Now().Add(30 * time.Second); ; {
+		x.mu.Lock()
+		ticks := x.ticks
+		x.mu.Unlock()
+
+		if ticks >= 2 {
+			break
+		}
+
+		if time.Now().After(deadline) {
+			rt.Fatalf("c34: crowd: the loop did not get to a timer registered after the gate was opened within 30 s: %s", desc)
+		}
+
+		time.Sleep(200 * time.Microsecond)
+	}
+
+	shutdownSeq := x.seq.Add(1)
+
+	_ = ts.Stop()
+
+	started = false
+
+	for deadline, quiet := time.Now().Add(10*time.Second), 0; quiet < 3; {
+		if x.inflight.Load() == 0 {
+			quiet++
+		} else {
+			quiet = 0
+		}
+
+		if time.Now().After(deadline) {
+			rt.Fatalf("c34: crowd: callbacks still in flight 10 s after shutdown: %s", desc)
+		}
+
+		time.Sleep(200 * time.Microsecond)
+	}
+
+	x.mu.Lock()
+	x.closed = true
+	nrunning := x.inGate
+	x.mu.Unlock()
+
+	tname := func(tm *c34CrowdTimer) string {
+		what := "timer"
+		if tm.successor {
+			what = "second timer under"
+		}
+
+		return fmt.Sprintf("%s %s (every %v -> %s)", what, tm.id, tm.interval, c34RetNames[tm.ret])
+	}
+
+	// ---- (a) stopped stays stopped; no tolerance while every slot was held inside the harness gate
+	stoppedWaiting := map[int]bool{}
+
+	for _, s := range stops {
+		n, first := 0, ""
+
+		for _, tm := range s.covered {
+			waited := len(tm.cbs) == 0 || tm.cbs[0].startSeq > s.startSeq
+			if waited {
+				stoppedWaiting[tm.idx] = true
+			}
+
+			for k, cb := range tm.cbs {
+				if cb.startSeq <= s.endSeq {
+					continue
+				}
+
+				n++
+
+				if first == "" {
+					first = fmt.Sprintf("callback %d of %s started @%d (no callback of it had started when the call was made: %v)", k, tname(tm), cb.startSeq, waited)
+				}
+			}
+		}
+
+		if n > 0 && full {
+			r.Violation(rt, "stopped-timer-started", "%s: %d callback starts of timers stopped by %s@%d..%d after that call had returned, first: %s; "+
+				"%d callbacks were running and held in the harness gate from before the call until @%d, so no other timer of the pass could have been past its stopped test",
+				desc, n, s.what, s.startSeq, s.endSeq, first, nrunning, openSeq)
+		}
+	}
+
+	// ---- (b) the second timer under an id is not removed by anything that concerns the first one
+	for _, tm := range successors {
+		for _, rs := range tm.removed {
+			selfdrop := false
+
+			for _, cb := range tm.cbs {
+				if cb.ret != c34RetKeep && cb.endSeq != 0 && cb.endSeq < rs {
+					selfdrop = true
+				}
+			}
+
+			if rs < shutdownSeq && !selfdrop {
+				r.Violation(rt, "successor-removed-by-id", "%s: %s, registered @%d after every Stop* call had returned, was removed @%d (shutdown@%d) although none of its callbacks had returned keep=false/error",
+					desc, tname(tm), tm.regEndSeq, rs, shutdownSeq)
+			}
+		}
+	}
+
+	// ---- (c) never before the interval
+	for _, tm := range append(append([]*c34CrowdTimer{sentinel}, timers...), successors...) {
+		for k := range tm.cbs {
+			switch {
+			case k == 0:
+				if d := tm.cbs[0].start.Sub(tm.regStart); d < tm.interval {
+					r.Violation(rt, "callback-before-interval", "%s: first callback of %s started %v after registration began", desc, tname(tm), d)
+				}
+			case tm.cbs[k-1].endSeq == 0:
+				r.Violation(rt, "callback-overlaps-itself", "%s: callback %d of %s started before callback %d returned", desc, k, tname(tm), k-1)
+			default:
+				if d := tm.cbs[k].start.Sub(tm.cbs[k-1].end); d < tm.interval {
+					r.Violation(rt, "callback-before-interval", "%s: callback %d of %s started %v after callback %d returned", desc, k, tname(tm), d, k-1)
+				}
+			}
+		}
+	}
+
+	// ---- evidence
+	ncb := 0
+	for _, tm := range timers {
+		ncb += len(tm.cbs)
+	}
+
+	nontrivial := full && len(stoppedWaiting) > 0
+
+	classes := []string{"phase:crowd", fmt.Sprintf("crowd-shards:%d", p.Size)}
+
+	if full {
+		classes = append(classes, "crowd-slots-full-during-stops")
+	} else {
+		classes = append(classes, "crowd-more-callbacks-running-than-slots-assumed:not-judged")
+	}
+
+	if len(stoppedWaiting) > 0 {
+		classes = append(classes, "crowd-stopped-collected-not-started-timer")
+	}
+
+	if len(successors) > 0 {
+		classes = append(classes, "crowd-id-registered-again-while-old-timer-waits")
+	}
+
+	for _, s := range stops {
+		classes = append(classes, "crowd-op:"+s.what)
+	}
+
+	r.Class("crowd-timers", int64(p.N))
+	r.Class("crowd-callbacks", int64(ncb))
+	r.Class("crowd-stopped-while-waiting", int64(len(stoppedWaiting)))
+	r.Case(desc, nontrivial, classes...)
+
+	if nontrivial && r.WantSample() {
+		r.Sample(map[string]any{"program": desc, "running_during_stops": nrunning, "waiting_during_stops": len(waiting), "stopped_while_waiting": len(stoppedWaiting),
+			"registered_again": len(successors), "callbacks": ncb})
+	}
+}
+
 func TestC34(t *testing.T) {
 	r := ev.Start(t, "C34")
 	defer r.Finish()
